@@ -131,8 +131,8 @@ theorem multicat_cell_is_index_set {F : Type} (cfg : ColCfg F) (ts : List Key) (
     cases hc : catPos cfg.cats t with
     | none => simp [hc] at hv
     | some i =>
-      simp only [hc, Option.map_some, Option.some.injEq] at hv
-      exact ⟨i, t, hv.symm, htm, hc⟩
+      simp [hc] at hv
+      exact ⟨i, t, by simpa using hv.symm, htm, hc⟩
   · rintro ⟨i, t, rfl, htm, hi⟩
     exact ⟨t, htm, by simp [hi]⟩
 
